@@ -129,10 +129,16 @@ def scalar_runs(ctx, rng, idx):
         if k is not None:
             a = abs(q[k]) + 0.3
             q[k], q[k + 1] = a, -a
+    # "whatever the data": amplitudes far from 1 too -- around the 1e-20 regularisation scale of the smooth limiters (slopes of
+    # 1e-22...1e-16), and anywhere between 1e-30 and 1e30; the monitor's tolerance is relative to the data
+    r = rng.random()
+    amp = float(10 ** rng.uniform(-24, -15)) if r < 0.15 else float(10 ** rng.uniform(-30, 30)) if r < 0.25 else 1.0
+    if amp != 1.0:
+        s.field.data[0] *= amp
     lim = 1.0 if first else 0.5
     cfl = lim if rng.random() < 0.25 else float(rng.uniform(0.02, lim))
     nstep = int(rng.integers(1, 31))
-    ctx.describe(integrator=iname, cfl=cfl, nstep=nstep, data=s.field.data[0], **{k: v for k, v in s.desc().items() if k != "prim"})
+    ctx.describe(integrator=iname, cfl=cfl, nstep=nstep, amplitude=amp, data=s.field.data[0], **{k: v for k, v in s.desc().items() if k != "prim"})
     solver = gen.integ(iname)(s.mesh, s.disc)
     solver.solve(s.field, cfl, stop={"maxit": nstep})
     if np.ptp(s.field.data[0]) > 0:
